@@ -1,6 +1,6 @@
 SPECIFICATION Spec
 CONSTANTS
-  Mgrs = {"sync", "async"}
+  Mgrs = {"sync", "async", "sync_ref", "async_ref"}
 INVARIANT TypeOK
 INVARIANT LawBound
 INVARIANT LawNoPlain
